@@ -30,12 +30,13 @@ Kinds == {"scalar", "seq", "map"}
 VARIABLES docs, keep, done
 vars == <<docs, keep, done>>
 \* bare: the document has no '---' line (only after a document that ended with '...', and without directives)
-DocChoices(first) == [dirs : (IF first \/ Full THEN DirLists ELSE DirListsSmall), yaml : BOOLEAN, sp : (IF first THEN Spellings ELSE SpellingsLater), kind : (IF first \/ Full THEN Kinds ELSE {"scalar"}),
+DocChoices(first) == [dirs : (IF first \/ Full THEN DirLists ELSE DirListsSmall), yaml : BOOLEAN, res : BOOLEAN, sp : (IF first THEN Spellings ELSE SpellingsLater), kind : (IF first \/ Full THEN Kinds ELSE {"scalar"}),
                       bare : (IF first THEN {FALSE} ELSE BOOLEAN)]
 Init == docs = <<>> /\ keep \in BOOLEAN /\ done = FALSE
 AddDoc == /\ ~done /\ Len(docs) < Docs
           /\ \E d \in DocChoices(docs = <<>>) :
-               /\ d.bare => (d.dirs = <<>> /\ ~d.yaml)
+               /\ d.bare => (d.dirs = <<>> /\ ~d.yaml /\ ~d.res)
+               /\ d.res => Len(d.dirs) <= 1          \* a reserved directive (%FOO bar baz): ignored, and never a %TAG line
                /\ docs' = Append(docs, d)
           /\ UNCHANGED <<keep, done>>
 Finish == /\ ~done /\ docs # <<>> /\ done' = TRUE /\ UNCHANGED <<docs, keep>>
@@ -55,7 +56,7 @@ NodeText(d) ==
   IF d.kind = "scalar" THEN <<"-", "-", "-">> \o pre \o <<" ", "v">> \o <<"\n">>
   ELSE IF d.kind = "seq" THEN <<"-", "-", "-">> \o pre \o <<" ", "[", "a", "]">> \o <<"\n">>
   ELSE <<"-", "-", "-">> \o pre \o <<"\n">> \o <<"k", ":", " ", "v">> \o <<"\n">>
-DocText(d) == (IF d.yaml THEN <<"%", "Y", "A", "M", "L", " ", "1", ".", "2">> \o <<"\n">> ELSE <<>>) \o DirText(d.dirs, 1) \o NodeText(d) \o <<".", ".", ".">> \o <<"\n">>
+DocText(d) == (IF d.res THEN <<"%", "F", "O", "O", " ", "b", "a", "r", " ", "b", "a", "z", "\n">> ELSE <<>>) \o (IF d.yaml THEN <<"%", "Y", "A", "M", "L", " ", "1", ".", "2">> \o <<"\n">> ELSE <<>>) \o DirText(d.dirs, 1) \o NodeText(d) \o <<".", ".", ".">> \o <<"\n">>
 RECURSIVE StreamText(_, _)
 StreamText(ds, i) == IF i > Len(ds) THEN <<>> ELSE DocText(ds[i]) \o StreamText(ds, i + 1)
 
